@@ -8,12 +8,14 @@ from ..cfg import CFG, header_exprs
 from ..nz import NZAnalysis, NZ, NZS, MZ
 
 MANIFEST = {
-    'technique': 'non-zero dataflow (D-nz) over the CFG of every sparse kernel including the 115 template-generated methods; dominator rule for the read-only gate; alias/purity analysis of binary kernels; exhaustiveness of the dispatcher name space; size-dispatch totality',
-    'text': 'Decides for every input: every store into a dict that is or becomes sparse storage stores a provably non-zero value (sums are re-tested, '
-            'loop values come from sparse dicts); products/quotients are enumerated as non-zero up to IEEE underflow; the public mutators of '
-            'SparseVector reach no write without passing the read_only test; binary kernels never write an operand and return a vector whose dict is '
-            'fresh; every kernel name a dispatcher template can form resolves to a definition; every size dispatch ends in raise ValueError. '
-            'Equality with NumPy results for all values is not decided.',
+    'technique': 'non-zero dataflow (D-nz) over the CFG of every sparse kernel including the 115 template-generated methods; dominator rule for the read-only gate; '
+            'alias/purity analysis of binary kernels; exhaustiveness of the dispatcher name space; size-dispatch totality; range-check rule for storage keys taken '
+            'from the caller',
+    'text': 'Decides for every input: every store into a dict that is or becomes sparse storage stores a provably non-zero value (sums are re-tested, loop values '
+            'come from sparse dicts); products/quotients are enumerated as non-zero up to IEEE underflow; the public mutators of SparseVector reach no write '
+            'without passing the read_only test; binary kernels never write an operand and return a vector whose dict is fresh; every kernel name a dispatcher '
+            "template can form resolves to a definition; every size dispatch ends in raise ValueError. Item assignment must compare the caller's index with the "
+            'size before using it as a storage key (two known findings: it does not). Equality with NumPy results for all values is not decided.',
 }
 
 SP = 'thermosteam/base/sparse.py'
